@@ -22,7 +22,8 @@ ANCHORS = ['pycaption.base:Caption._format_timestamp', 'pycaption.base:Caption.f
 REQUIRE = {'writes_' + w: 30 for w in W.WRITERS}
 REQUIRE.update({'sami_sequence_checks': 20, 'sami_multiset_checks': 5, 'float_time_sets': 20, 'runs_present': 20, 'sami_blank_syncs_required': 20,
                 'sami_blank_syncs_forbidden': 10, 'sami_multi_language': 10, 'cues_compared': 1000,
-                'webvtt_split_captions': 5, 'captions_with_empty_text_only': 20})
+                'webvtt_split_captions': 5, 'captions_with_empty_text_only': 20,
+                'sets_with_an_additional_empty_language': 50})
 
 RES = {'SRTWriter': 1000, 'WebVTTWriter': 1000, 'DFXPWriter': 1000, 'SinglePositioningDFXPWriter': 1000,
        'LegacyDFXPWriter': 1000, 'SAMIWriter': 1000, 'MicroDVDWriter': 40000}
@@ -64,6 +65,14 @@ def gen_case(rng, tag, writer):
                                                                              ['s', False, {'color': 'red'}]]])
             caps.append({'start': a, 'end': b, 'nodes': nodes, 'style': None, 'layout': None})
         spec['langs'].append({'lang': lang, 'layout': None, 'captions': caps})
+    empty_lang = False
+    if writer not in ('SRTWriter', 'MicroDVDWriter') and rng.random() < 0.15:
+        # a language without captions next to the written one(s) takes nothing away from them (the SRT and
+        # MicroDVD writers join all languages into one document, which is outside this check's SRT grammar)
+        used = {l['lang'] for l in spec['langs']}
+        spec['langs'].append({'lang': rng.choice([x for x in capsets.LANGS if x not in used]), 'layout': None,
+                              'captions': []})
+        empty_lang = True
     opts = {}
     if writer != 'LegacyDFXPWriter':
         if rng.random() < 0.3:
@@ -74,7 +83,8 @@ def gen_case(rng, tag, writer):
             opts.update(video_width=640, video_height=360)
     if writer == 'DFXPWriter' and rng.random() < 0.2:
         opts['write_inline_positioning'] = True
-    return {'writer': writer, 'opts': opts, 'set': spec, 'float': float_times, 'sorted': sorted_}
+    return {'writer': writer, 'opts': opts, 'set': spec, 'float': float_times, 'sorted': sorted_,
+            'empty_lang': empty_lang}
 
 
 def cases(ctx):
@@ -116,6 +126,8 @@ def check(case, ctx):
                                                    if not ''.join(n[1] for n in c['nodes'] if n[0] == 't')))
     if case['float']:
         ctx.count('float_time_sets')
+    if case.get('empty_lang'):
+        ctx.count('sets_with_an_additional_empty_language')
     try:
         out = W.make_writer(writer, case['opts']).write(cs)
     except Exception as e:
